@@ -221,6 +221,7 @@ SPEC = {
         "out_arg_receives_cast"]] + [TX + n for n in [
         # the extended language (swizzles, members, subscripts, constructors, intrinsic functions, statements)
         "elab_sound", "elab_debug_check_redundant", "elab_stmt_sound", "ids_in_range",
+        "elab_rejects_const_write", "elab_rejects_rvalue_write", "elab_rejects_rvalue_out_arg",
         "elab_rejects_assign_to_const", "elab_rejects_assign_to_rvalue", "elab_rejects_increment",
         "elab_rejects_call", "elab_rejects_arity", "elab_rejects_unconvertible", "elab_rejects_out_arg_rvalue",
         "elab_rejects_out_arg_const", "elab_rejects_assign_to_rvalue_form", "elab_rejects_increment_of_rvalue_form",
